@@ -1,5 +1,6 @@
 import Sparrow.Proofs.LifeLemmas
 import Sparrow.Generated.Lifecycle
+import Sparrow.Generated.Constants
 /-
   C15 — Saving and restoring a simulation at any stage is lossless.
 
@@ -75,5 +76,17 @@ theorem write_footprints_as_modelled :
     writes "calculate_energy_exchange" = ["_energy_exchange_etc", "_etc_duration", "_etc_time_resolution", "_speed_of_sound"] ∧
     writes "collect_energy_receiver_mono" = [] ∧ writes "collect_energy_receiver_patchwise" = [] ∧
     writes "calculate_direct_sound" = [] ∧ writes "to_dict" = [] ∧ writes "__eq__" = [] ∧ writes "check" = [] := by decide
+
+/-- The source regenerated from `/repo`: `calculate_energy_exchange` stores speed of sound,
+    resolution and duration exactly where it stores the histogram (inside
+    `if self._energy_exchange_etc is None or recalculate`), as `Life.exchange` does. -/
+theorem exchange_params_site_as_modelled : Generated.exchangeParamsStoredWithEtc = true := by decide
+
+/-- In every history — setters, bake, init, exchange with or without recalculation, save/restore
+    in any order — the stored parameters are those the stored histogram was computed with, which
+    is what `check()` demands when the saved state is restored (D14, repaired). -/
+theorem params_describe_etc (s : St) (h : ParamsDescribeEtc s) (ops : List Op) :
+    ParamsDescribeEtc (run s ops) :=
+  Sparrow.Life.params_describe_etc s h ops
 
 end Sparrow.Props.C15
